@@ -1,1 +1,22 @@
-//! Witness crate: each tests/*.rs file demonstrates one finding against the real macro.
+//! Witness crate: each tests/*.rs file (and each doc-test below) demonstrates one finding against the
+//! real macro. Witnesses decide nothing; they show that a construct reported by a rule really fails.
+
+/// C05: a positional index that does not denote an existing argument must be a compile error, not a
+/// transparent delegation (`{1}` with one argument).
+///
+/// ```compile_fail
+/// #[derive(derive_more::Display)]
+/// #[display("{1}", _0)]
+/// struct S(i32);
+/// fn main() { let _ = S(1).to_string(); }
+/// ```
+///
+/// The compiling twin differs only in the index:
+///
+/// ```
+/// #[derive(derive_more::Display)]
+/// #[display("{0}", _0)]
+/// struct S(i32);
+/// fn main() { assert_eq!(format!("{:>3}", S(1)), "  1"); }
+/// ```
+pub struct C05PositionalIndex;
